@@ -2,6 +2,40 @@
 from pyvc.report import Report
 
 
+def corner_programs(rep):
+    """programs at the edges of the layout code (nothing emitted, one line, lines too long for the version note) under all 256 option vectors"""
+    import time
+
+    from bounded import harness as H
+    from bounded.props import check_stats
+    from pyvc.report import HELD, VIOLATED, Ob
+
+    h = "from stationeers_pytrapic.symbols import *\n"
+    long_expr = " + ".join(["d0.Setting"] * 12)
+    progs = ["", "\n", "# only a comment\n", h, h + "pass\n", h + "db.Setting = 1\n", h + "x = 1\n", h + f"db.Setting = {long_expr}\n",
+             h + 'db.Setting = SolarPanels["A rather long name for a solar panel array"].Horizontal.Average + GrowLights["Another long name, with punctuation"].On.Sum\n',
+             h + "def f(a):\n    return a + 1\ndb.Setting = f(d0.Setting)\n", h + "while True:\n    yield_()\n"]
+    t0 = time.time()
+    bad, n = None, 0
+    for src in progs:
+        for bits in range(256):
+            opts = H.options_from_bits(bits)
+            res = H.compile_program(src, opts)
+            if "code" not in res:
+                continue
+            n += 1
+            f = check_stats(res)
+            if f and bad is None:
+                bad = (src, opts, f[0], res["code"])
+    ob = Ob("compiler.compile_code#statistics_describe_the_emitted_text[corner programs]", HELD if not bad else VIOLATED, kind="bounded", backend="native", target="compiler.compile_code",
+            bound=f"{n} compilations: {len(progs)} corner programs (empty, comment-only, one line, lines too long for the version note, one function) x all 256 option vectors", time_s=time.time() - t0)
+    if bad:
+        ob.witness, ob.replayed = {"sources": bad[0], "options": bad[1]}, True
+        ob.detail["observed"], ob.detail["emitted_code"] = bad[2], bad[3]
+    rep.add(ob)
+    rep.bounded["evaluations"] = rep.bounded.get("evaluations", 0) + n
+
+
 def run(tier, seed):
     rep = Report("C17", tier, seed, level="exploration")
     from bounded.driver import replay_known, run_bounded
@@ -9,8 +43,9 @@ def run(tier, seed):
     replay_known(rep, "C17")
     q = tier == "quick"
     run_bounded(rep, "C17", [("general", {}, "calls", 800 if q else 15000), ("state-only", {"modules": True, "state_only": True}, "modules", 150 if q else 2000), ("modules", {"modules": True, "collide": False}, "modules-rl", 600 if q else 8000),
-                             ("calls", {"calls_focus": True, "max_funcs": 3}, "cover16", 120 if q else 2000)],
+                             ("calls", {"calls_focus": True, "max_funcs": 3}, "cover16", 120 if q else 2000), ("general-version", {}, "version", 200 if q else 4000)],
                 budget_s=70 if q else 1200, seed=seed)
+    corner_programs(rep)
     rep.trust("bounded/props.py:check_stats (recount of lines, bytes with two-byte line ends, distinct r0-r15 tokens)")
     rep.assume("generated programs never write user-chosen register names, so every r<N> token in the output was allocated by the transpiler")
     return rep.finish(min_obligations=1)
